@@ -110,7 +110,7 @@ def main():
   rep.assumptions += [
     "tier P covers the id-filling slice of doBulkAddOrReplace (function entry up to the call of "
     "update_new_rows_map); table.next_row_id() is assumed to return an id above every existing "
-    "row (RowIDs.max lemma)", "int is mathematical",
+    "the link from the id column to the `existing` set of the slice contract is by the view definition)", "int is mathematical",
     "bounded part: BulkAddRecord/ReplaceTableData/AddRecord through the real engine with all id "
     "lists of length <= 2 (quick) / 3 (thorough) over %r on tables holding {} / {1,2} / {2,5}" % (IDS,),
     common.SHIM_ASSUMPTION,
@@ -120,6 +120,7 @@ def main():
                           "= distinct request")
   rep.coverage["exhaustive"] = True
   runner.run_property(rep, "contracts.C27_rowids", bounded=False)
+  runner.run_property(rep, "contracts.L_store", bounded=False, only=["L.rowids"])
   from vlib.rtc import fn
   c = fn.FnContract("UserActions.BulkAddRecord/ReplaceTableData/AddRecord (via Engine.apply_user_actions)",
                     _call, ensures={"C27.unsatisfiable_request_rejected": e_rejected,
